@@ -184,6 +184,86 @@ def _iter_sources(b, defs, op, depth=0):
     return None
 
 
+def txt_size_cache(ctx, report, rule="C04-R1"):
+    """TXT::len() returns the cached field `size`; RDLENGTH is right only if size == sum(len(s) + 1) over the strings.  That
+    invariant is established by a closed set of sites, each of a recognisable form; any other construction of a TXT or write
+    to `.size` is reported (who-may-write)."""
+    prog = ctx.prog
+    ALLOWED = {
+        "simple_dns::TXT::new": "empty strings, size 0",
+        "simple_dns::TXT::add_char_string": "size += char_string.len() next to strings.push(char_string)",
+        "simple_dns::TXT::into_owned": "size copied with the strings",
+        "simple_dns::<TXT as WireFormat>::parse": "size = cursor advance over the consecutively parsed strings",
+        "simple_dns::<TXT as Clone>::clone": "derived",
+    }
+    n = 0
+    for b in sorted(prog.bodies.values(), key=lambda x: x.qname):
+        if b.crate != "simple_dns" or b.kind == "Promoted":
+            continue
+        owner = prog.bodies.get(b.root, b) if b.kind == "Closure" else b
+        sites = []
+        for bi, si, s1 in mu.aggregates(b, "txt::TXT"):
+            sites.append(("constructs a TXT", s1))
+        for bl in b.blocks:
+            if bl["cleanup"]:
+                continue
+            for s1 in bl["stmts"]:
+                if s1["s"] == "assign" and s1["pl"]["p"] and isinstance(s1["pl"]["p"][-1], dict) and s1["pl"]["p"][-1].get("n") == "size" \
+                        and s1["pl"]["p"][-1].get("adt", "").endswith("txt::TXT"):
+                    sites.append(("writes TXT.size", s1))
+        for what, s1 in sites:
+            n += 1
+            report.count()
+            if owner.qname not in ALLOWED:
+                viol(report, rule, b, "txt-size-cache", "%s %s outside the functions that maintain the cached length (%s): TXT::len(), and with it "
+                     "the RDLENGTH written by the uncompressed writers, is only right while size == sum of (string length + 1)" % (
+                         b.qname, what, ", ".join(sorted(x.split("::", 1)[1] for x in ALLOWED))), what)
+                continue
+            okf = True
+            defs = mu.defs_of(b)
+            if owner.qname.endswith("TXT::new") and what.startswith("constructs"):
+                szi = list(s1["rv"]["fields"]).index("size")
+                o = s1["rv"]["ops"][szi]
+                okf = o["o"] == "const" and int(o["k"]["v"]) == 0
+            elif owner.qname.endswith("TXT::into_owned") and what.startswith("constructs"):
+                szi = list(s1["rv"]["fields"]).index("size")
+                o = s1["rv"]["ops"][szi]
+                cur = o
+                okf = False
+                for _ in range(4):
+                    if cur.get("o") in ("copy", "move") and any(isinstance(p, dict) and p.get("n") == "size" for p in cur["pl"]["p"]) and cur["pl"]["l"] == 1:
+                        okf = True
+                        break
+                    d = mu.single_def(defs, mu.op_local(cur)) if mu.op_local(cur) is not None else None
+                    if d is None or d[1] == "term" or d[2].get("k") != "use":
+                        break
+                    cur = d[2]["op"]
+            elif owner.qname.endswith("add_char_string"):
+                lens = mu.calls(b, r"CharacterString.*::len$")
+                pushes = mu.calls(b, r"Vec::<T, A>::push$")
+                adds = [s2 for bl in b.blocks for s2 in bl["stmts"] if s2["s"] == "assign" and s2["rv"]["k"] == "bin" and s2["rv"]["op"].startswith("Add")]
+                okf = len(lens) == 1 and len(pushes) == 1 and len(adds) == 1
+            elif owner.qname.endswith("WireFormat>::parse") and what.startswith("constructs"):
+                an = ctx.whole.results.get(b.id)
+                okf = False
+                if an is not None:
+                    for bi2, st2, v2 in an.ok_points:
+                        if v2 is not None and v2[0] == "adt" and v2[2] == "Ok" and v2[3] and v2[3][0] is not None and v2[3][0][0] == "adt":
+                            inner = v2[3][0]
+                            fm = dict(zip(inner[4], inner[3]))
+                            sz = fm.get("size")
+                            cur_ = st2.store.get("(*_2)")
+                            if sz is not None and sz[0] == "lin" and cur_ is not None and cur_[0] == "lin" and \
+                                    sz[1] == cur_[1] - Lin.sym("(*_2)@entry"):
+                                okf = True
+            if okf:
+                report.nontriv("txt-size:" + b.qname)
+            else:
+                viol(report, rule, b, "txt-size-cache", "%s %s, but not in the form that keeps the cached length right (%s)" % (
+                    b.qname, what, ALLOWED[owner.qname]), what)
+    report.floor("sites that maintain TXT's cached length", n, 4)
+
+
 def packet_emission_order(ctx, b):
     """(callee, element type, iterated collection or None) for every nested write of a packet writer, in block order;
     `for e in &self.f { e.write(..)? }` and `self.f.iter().try_for_each(|e| e.write(..))` (also over a chain) read alike"""
@@ -249,6 +329,7 @@ def run(ctx):
         return report.finish()
     # ---- R1
     len_vs_write(ctx, report)
+    txt_size_cache(ctx, report)
     # RDLENGTH in the uncompressed writer is rdata.len()
     an = W.results[B["rr_write"].id]
     emits = an.emits
